@@ -26,6 +26,8 @@ def run(ctx, db, tier):
     summ = publish.Summaries(db)
     publish.check_no_touch(ctx, db, 'C15.publish-discipline', summ, functions=None, per_instance=False, floor=12)
     C02.init_before_publish(ctx, db, summ, 'C15.init-before-publish')
+    # listeners push themselves onto the signal's chain concurrently: none of them may be cut off by another one's retry
+    C02.link_current(ctx, db, 'C15.no-listener-cut-off')
 
 
 def value_before_notify(ctx, db):
